@@ -415,29 +415,63 @@ func rollbackReservation(w *World, r *Report, rule string) {
 // transaction in two vertices is refused because the second reservation fails).
 func reserveBeforeInsert(w *World, r *Report, rule, only string, floor int) {
 	r.rule(rule, "every AddVertexByID(id, v) is dominated by the success edge of saveTrxInVertex(v.Transaction.Hash, v.Hash) for the same v", floor)
-	for _, s := range admissionSites(w) {
-		fn := s.Parent()
-		if only != "" && refName(ownerFn(fn)) != only {
+	// Every insertion site is judged from the entry functions that reach it (the site itself when it sits in one): the
+	// reservation may sit in the same function, in a helper called before, or in the caller of the helper that inserts.
+	type site struct {
+		d   dcall
+		top *ssa.Function
+	}
+	var sites []site
+	entries := []string{"CreateGenesis", "CreateLeaf", "LoadDag", "addLeafMemorized"}
+	if only != "" {
+		entries = []string{only}
+	}
+	covered := map[ssa.CallInstruction]bool{}
+	for _, name := range entries {
+		top := w.Func("accountant", "AccountingBook", name)
+		if top == nil {
 			continue
 		}
+		for _, d := range deepCalls(top, byName(nAddVertexByID), deepDepth) {
+			sites = append(sites, site{d, top})
+			covered[d.c] = true
+		}
+	}
+	if only == "" {
+		for _, s := range admissionSites(w) { // insertion sites not reached from the known entries are judged where they are
+			if !covered[s] {
+				sites = append(sites, site{dcall{c: s}, s.Parent()})
+			}
+		}
+	}
+	for _, st := range sites {
+		s := st.d.c
+		fn := s.Parent()
 		r.seen(shortFn(fn))
 		_, args := callArgs(s)
-		v := pathOf(args[1])
-		key := shortFn(fn) + "/AddVertexByID(" + v + ")"
-		found := false
+		v := st.d.path(args[1])
+		key := shortFn(fn) + "/AddVertexByID(" + pathOf(args[1]) + ")"
 		why := "no saveTrxInVertex call in the function"
-		for _, g := range callsTo(fn, nSaveTrx) {
-			_, ga := callArgs(g)
-			if !behind(s, passErrNil(g)) {
+		reserved := func(fn2 *ssa.Function, res resolver) []Edge {
+			var es []Edge
+			for _, g := range callsTo(fn2, nSaveTrx) {
+				_, ga := callArgs(g)
+				hashOK := res(ga[0]) == v+".Transaction.Hash"
+				if !hashOK { // a locally created vertex: NewVertex(trx, …) and the reservation names trx.Hash
+					if t, _ := newVertexSource(st.top, v); t != "" && res(ga[0]) == t+".Hash" {
+						hashOK = true
+					}
+				}
+				if res(ga[1]) != v+".Hash" || !hashOK {
+					why = fmt.Sprintf("reservation is for (%s, %s), not for the inserted vertex %s", res(ga[0]), res(ga[1]), v)
+					continue
+				}
 				why = "saveTrxInVertex at " + lineOf(w, g) + " does not dominate the insertion through its success edge"
-				continue
+				es = append(es, passErrNil(g)...)
 			}
-			if pathOf(ga[1]) != v+".Hash" || !trxHashPathOK(fn, v, pathOf(ga[0])) {
-				why = fmt.Sprintf("reservation is for (%s, %s), not for the inserted vertex %s", pathOf(ga[0]), pathOf(ga[1]), v)
-				continue
-			}
-			found = true
+			return es
 		}
+		found := behindDeepSite(st.d, reserved)
 		r.check(found, rule, key, lineOf(w, s), "insertion only after the transaction hash was reserved for this vertex", why)
 	}
 }
